@@ -30,8 +30,13 @@ def build_and_demo(demo_c, tag):
     os.unlink(exe); shutil.rmtree(b, ignore_errors=True)
     return {'build': 'ok', 'suite_passes': suite, 'demo_exit': rc, 'demo_output': out.strip()}
 def main():
-    pid, letter = sys.argv[1], sys.argv[2]; extra = sys.argv[3:]
-    src = '/tmp/seed_%s/seed/%s' % (pid, letter)
+    args = sys.argv[1:]
+    as_letter = None; src_root = None
+    if '--as' in args: i = args.index('--as'); as_letter = args[i + 1]; del args[i:i + 2]
+    if '--from' in args: i = args.index('--from'); src_root = args[i + 1]; del args[i:i + 2]
+    pid, letter = args[0], args[1]; extra = args[2:]
+    src = '%s/seed/%s' % (src_root or '/tmp/seed_%s' % pid, letter)
+    letter = as_letter or letter
     dst = os.path.join(ROOT, 'seeded', '%s-%s' % (pid, letter))
     os.makedirs(dst, exist_ok=True)
     for f in ('patch.diff', 'demo.c', 'README.txt'):
@@ -67,7 +72,7 @@ def main():
         for f in os.listdir(keep): shutil.copy(os.path.join(keep, f), os.path.join(ROOT, 'evidence'))
         shutil.rmtree(keep)
         sh('git -C %s checkout -- .; git -C %s clean -fdq' % (WT, WT))
-    meta = {'property': pid, 'candidate': letter, 'origin': 'independent sub-agent given only the property text and a scratch worktree (/tmp/seed_%s)' % pid,
+    meta = {'property': pid, 'candidate': letter, 'origin': 'independent sub-agent given only the property text and a scratch worktree (%s)' % (src_root or '/tmp/seed_%s' % pid),
             'repo_head': head, 'valid': bool(ok), 'confirmed_by_me': {'unchanged_tree': clean, 'changed_tree': changed,
             'library_cflags': os.environ.get('SEED_CFLAGS', ''), 'how': 'scratch worktree /tmp/wt_seedeval of /repo HEAD: cmake RelWithDebInfo build, polyseed-tests, demo.c linked against libpolyseed.a; with and without patch.diff'},
             'checks_run': res, 'needs_to_manifest': 'see README.txt'}
